@@ -176,9 +176,92 @@ def problems(tier):
                           noises=("none", "y_err", "y_cov_full"))
 
 
+# ------------------------------------------------------------------ histories on one regressor
+@st.composite
+def history_cases(draw):
+    case = draw(gc.gp_problems(max_n=10, max_d=3, max_m=3, min_n=2, kernels=["SE"], max_depth=1, noises=("none", "y_err", "y_cov_full")))
+    case["q_form"] = "array"
+    alts = []
+    for _ in range(draw(st.integers(1, 2))):
+        what = draw(st.sampled_from(["cov", "cov", "mean", "both"]))
+        alts.append({"theta_u": [draw(gc.unit) for _ in case["theta_u"]] if what != "mean" else list(case["theta_u"]),
+                     "mean_u": [draw(gc.unit) for _ in case["mean_u"]] if what != "cov" else list(case["mean_u"])})
+    case["alts"] = alts
+    ops = []
+    for _ in range(draw(st.integers(2, 7))):
+        if draw(st.integers(0, 2)) == 0:
+            ops.append({"op": "switch", "theta": draw(st.integers(0, len(alts))), "how": draw(st.sampled_from(["fresh", "same-array", "same-array"]))})
+        else:
+            ops.append({"op": draw(st.sampled_from(["gradient", "spatial_derivatives"]))})
+    case["ops"] = ops
+    return case
+
+
+def body_history(case, ctx):
+    """derivative predictions of a long-lived regressor are those of the hyper-parameters it holds now: compared, after every switch
+    (also one made by editing in place the very array the regressor was given), with a regressor that has never been used"""
+    X, y, xs, ys, spec, noise_kw, S, th_cov, th_mean, Q = setup(case)
+    d, n = case["d"], case["n"]
+    thetas = []
+    for alt in [{"theta_u": case["theta_u"], "mean_u": case["mean_u"]}] + case["alts"]:
+        sub = dict(case)
+        sub.update(alt)
+        tc = gc.theta_from_unit(spec, sub, X, ys)
+        tm = gc.mean_theta(sub, X, y, ys)[: rk.mean_n_params(case["mean"], d)]
+        with np.errstate(all="ignore"):
+            kappa = np.linalg.cond(rk.ref_build(spec, X, tc) + S)
+        if not np.isfinite(kappa) or kappa > 1e6:
+            raise Inconclusive("ill-conditioned (kappa > 1e6)")
+        thetas.append((np.concatenate([tm, tc]), kappa, tc))
+    given = thetas[0][0].copy()           # the caller's own array, handed to the constructor
+    gp = fit(X.copy(), y.copy(), noise_kw, spec, case["mean"], given)
+    held, switched, inplace = 0, 0, 0
+    for step, op in enumerate(case["ops"]):
+        if op["op"] == "switch":
+            new = thetas[op["theta"]][0]
+            if op["how"] == "same-array":
+                given[:] = new
+                arg = given
+                inplace += 1
+            else:
+                arg = new.copy()
+            with np.errstate(all="ignore"), warnings.catch_warnings():
+                warnings.simplefilter("ignore")
+                gp.set_hyperparameters(arg)
+            switched += held != op["theta"]
+            held = op["theta"]
+            continue
+        theta, kappa, tc = thetas[held]
+        twin = fit(X.copy(), y.copy(), noise_kw, spec, case["mean"], theta.copy())
+        with np.errstate(all="ignore"):
+            got = getattr(gp, op["op"])(Q.copy())
+            want = getattr(twin, op["op"])(Q.copy())
+        L, a2 = np.exp(tc[1:]), np.exp(2 * tc[0])
+        f = 1e-8 + 1000 * kappa * EPS
+        m = Q.shape[0]
+        for name, g_, w_ in zip(("mean", "covariance" if op["op"] == "gradient" else "variance"), got, want):
+            g_, w_ = np.asarray(g_, dtype=float), np.asarray(w_, dtype=float)
+            if g_.shape != w_.shape:
+                raise Violation(f"history-shape:{op['op']}", f"call {step}: shape {g_.shape} vs {w_.shape} from a never-used regressor")
+            if name == "mean":
+                scale = (np.max(np.abs(w_)) + ys / np.min(L)) * np.ones_like(w_)
+            else:
+                scale = (np.max(np.abs(w_)) + a2 / np.min(L) ** (2 if op["op"] == "gradient" else 1)) * np.ones_like(w_)
+            e = float(np.max(np.abs(g_ - w_) / (f * scale))) if g_.size else 0.0
+            ctx.ratio("history", e, 1.0)
+            if not e <= 1:
+                raise Violation(f"history:{op['op']}:{name}", f"call {step} ({op['op']} after {switched} hyper-parameter switches, {inplace} made in place on the array given "
+                                                             f"to the constructor): {name} {g_.ravel()[:4].tolist()} vs {w_.ravel()[:4].tolist()} from a never-used regressor")
+    ctx.nontrivial(switched >= 1)
+    ctx.event(f"switches={min(switched, 2)}")
+    ctx.event("in-place-switch" if inplace else "fresh-array-switches")
+
+
 SUBCHECKS = [
     Sub("derivatives", problems, body_derivatives, quick=2500, thorough=60000, shards_quick=10, shards_thorough=16,
         rule="non-constant mean, or d >= 2, or batched query; kappa <= 1e6"),
     Sub("unsupported", lambda t: unsupported_cases(), body_unsupported, quick=150, thorough=2000, shards_quick=2, shards_thorough=4,
         rule="kernel without derivative support (RQ, white noise, sums, change-points)"),
+    Sub("history", lambda t: history_cases(), body_history, quick=600, thorough=20000, shards_quick=6, shards_thorough=16,
+        rule="one regressor whose hyper-parameters were switched at least once between derivative predictions"),
 ]
